@@ -180,6 +180,8 @@ Lemma finding_21_status : finding_status 21 wit_finding_21.
 Proof. apply finding_status_by_check. vm_compute. reflexivity. Qed.
 Lemma finding_22_status : finding_status 22 wit_finding_22.
 Proof. apply finding_status_by_check. vm_compute. reflexivity. Qed.
+Lemma finding_23_status : finding_status 23 wit_finding_23.
+Proof. apply finding_status_by_check. vm_compute. reflexivity. Qed.
 
 (* ---- non-vacuity: the documented channel IS reached, inside the guard, in both modes ----------------- *)
 Definition channel_reached (x : bool) : Prop :=
